@@ -41,6 +41,20 @@ func witnesses(c *hx.Ctx) {
 	m2 := mi(0, 1, -1, 0, 30, 40)
 	outer := &form{M: &m2, Body: []op{o("BT"), o("Tf", 6), o("Td", 3, 4), tj(0), o("ET"), {K: "Do", Form: inner}, o("q"), o("cm", 1, 0, 0, 1, 7, 7), o("Q")}}
 	checkText(c, "witness", []op{o("cm", 1, 0, 0, 1, 100, 100), {K: "Do", Form: outer}, o("BT"), tj(2), o("ET"), {K: "Do", Form: &form{Body: []op{o("BT"), tj(3), o("ET")}}}}, true)
+	// sibling forms, each with its own child: under per-scope resources both children are
+	// /Fm0 (layout local-index); the page invokes the first sibling twice
+	tb := func(sid int, x, y int64) []op { return []op{o("BT"), o("Tf", 10), o("Td", x, y), tj(sid), o("ET")} }
+	kidL := &form{M: &mat{ri(2), ri(0), ri(0), ri(2), ri(0), ri(300)}, Body: tb(0, 5, 5)}
+	kidR := &form{M: &mat{ri(0), ri(1), ri(-1), ri(0), ri(50), ri(60)}, Body: tb(1, 5, 5)}
+	mL, mR := mi(1, 0, 0, 1, 100, 0), mi(1, 0, 0, 1, 300, 0)
+	sibL := &form{M: &mL, Body: []op{{K: "Do", Form: kidL}}}
+	sibR := &form{M: &mR, Body: append(tb(2, 1, 2), op{K: "Do", Form: kidR})}
+	checkText(c, "witness-scopes", []op{o("q"), o("cm", 1, 0, 0, 1, 10, 10), {K: "Do", Form: sibL}, o("Q"), {K: "Do", Form: sibR},
+		o("cm", 3, 0, 0, 3, 0, 0), {K: "Do", Form: sibL}}, true)
+	// the page's first form and that form's first child are both /Fm0 (re-bound between
+	// page scope and form scope), and the child is also invoked from the page afterwards
+	par := &form{M: &mL, Body: append([]op{{K: "Do", Form: kidL}}, tb(3, 7, 8)...)}
+	checkText(c, "witness-scopes", []op{{K: "Do", Form: par}, {K: "Do", Form: kidR}, {K: "Do", Form: kidL}, {K: "Do", Form: par}}, true)
 	// form contents that close more (or less) than they open: outside ISO 32000, tabula
 	// ignores the failing Q inside the form and restores what is on top afterwards
 	checkText(c, "random-unbalanced-form", []op{o("q"), o("cm", 2, 0, 0, 2, 3, 4), {K: "Do", Form: &form{M: &m2, Body: []op{o("BT"), o("Td", 1, 1), tj(0), o("Q"), o("Q"), o("Q"), tj(1)}}}, o("BT"), tj(2), o("q"), o("Q")}, false)
@@ -189,6 +203,41 @@ type genState struct {
 	qdepth  int
 	budget  int
 	balance bool
+	made    []madeForm // forms generated so far in this program (candidates for re-invocation)
+}
+
+// madeForm: a form and the nesting of forms below it (0 = invokes no form).
+type madeForm struct {
+	f      *form
+	height int
+}
+
+func height(p []op) int {
+	h := 0
+	for _, x := range p {
+		if x.K == "Do" {
+			if k := 1 + height(x.Form.Body); k > h {
+				h = k
+			}
+		}
+	}
+	return h
+}
+
+// reuse picks an earlier form of this program that still fits under the nesting bound
+// when invoked at formDepth (nil if none): one form object invoked from several places,
+// under different CTMs and possibly from different scopes.
+func (g *genState) reuse(formDepth int) *form {
+	var fit []*form
+	for _, m := range g.made {
+		if formDepth+1+m.height <= 3 {
+			fit = append(fit, m.f)
+		}
+	}
+	if len(fit) == 0 {
+		return nil
+	}
+	return fit[g.r.Intn(len(fit))]
 }
 
 func (g *genState) show() op {
@@ -258,6 +307,12 @@ func (g *genState) ops(n int, formDepth int, inForm bool) []op {
 			p = append(p, sh)
 		case x < 98:
 			if formDepth < 3 {
+				if r.Chance(1, 5) {
+					if f := g.reuse(formDepth); f != nil {
+						p = append(p, op{K: "Do", Form: f})
+						break
+					}
+				}
 				f := &form{}
 				if r.Chance(4, 5) {
 					m := genMatrix(r)
@@ -269,6 +324,7 @@ func (g *genState) ops(n int, formDepth int, inForm bool) []op {
 				}
 				f.Body = g.ops(r.Range(1, 8), formDepth+1, true)
 				g.qdepth, g.balance = saveQ, saveBal
+				g.made = append(g.made, madeForm{f, height(f.Body)})
 				p = append(p, op{K: "Do", Form: f})
 			}
 		default:
@@ -315,6 +371,116 @@ func genProgram(r *hx.Rng) ([]op, bool) {
 	n := r.Range(2, 40)
 	p := g.ops(n, 0, false)
 	return p, formsBalanced(p, true)
+}
+
+// ---- form scopes --------------------------------------------------------------------------
+
+// textBlock: BT, font size, one positioning step, a show, sometimes a second line.
+func (g *genState) textBlock() []op {
+	r := g.r
+	p := []op{o("BT")}
+	if r.Chance(2, 3) {
+		p = append(p, op{K: "Tf", N: []*big.Rat{[]*big.Rat{ri(1), ri(8), ri(10), ri(12), ri(24), rf(21, 2)}[r.Intn(6)]}})
+	}
+	switch r.Intn(4) {
+	case 0:
+		m := genMatrix(r)
+		p = append(p, op{K: "Tm", N: m[:]})
+	case 1: // nothing: shown at the form's origin
+	default:
+		p = append(p, op{K: "Td", N: []*big.Rat{small(r), small(r)}})
+	}
+	p = append(p, g.show())
+	if r.Chance(1, 3) {
+		if r.Bool() {
+			p = append(p, op{K: "TL", N: []*big.Rat{small(r)}}, o("T*"))
+		} else {
+			p = append(p, op{K: "TD", N: []*big.Rat{small(r), small(r)}})
+		}
+		p = append(p, g.show())
+	}
+	return append(p, o("ET"))
+}
+
+// invoke: Do, sometimes under its own q cm … Q.
+func (g *genState) invoke(f *form) []op {
+	if g.r.Chance(1, 3) {
+		m := genMatrix(g.r)
+		return []op{o("q"), {K: "cm", N: m[:]}, {K: "Do", Form: f}, o("Q")}
+	}
+	return []op{{K: "Do", Form: f}}
+}
+
+// scopeForm: a form at nesting depth (1 = invoked from the page) with /Matrix, text of its
+// own and, below the bound, one or two child forms — new ones or forms made earlier in the
+// program (so that one object is reachable from several scopes).
+func (g *genState) scopeForm(depth int) *form {
+	r := g.r
+	f := &form{}
+	if r.Chance(5, 6) {
+		m := genMatrix(r)
+		f.M = &m
+	}
+	if r.Chance(1, 2) {
+		f.Body = append(f.Body, g.textBlock()...)
+	}
+	if depth < 3 {
+		kids := r.Range(1, 2)
+		if depth == 2 {
+			kids = r.Range(0, 1)
+		}
+		for i := 0; i < kids; i++ {
+			var child *form
+			if r.Chance(1, 6) {
+				child = g.reuse(depth)
+			}
+			if child == nil {
+				child = g.scopeForm(depth + 1)
+			}
+			f.Body = append(f.Body, g.invoke(child)...)
+			if r.Chance(1, 3) {
+				f.Body = append(f.Body, g.textBlock()...)
+			}
+		}
+	}
+	if len(f.Body) == 0 || r.Chance(1, 4) {
+		f.Body = append(f.Body, g.textBlock()...)
+	}
+	g.made = append(g.made, madeForm{f, height(f.Body)})
+	return f
+}
+
+// genScopes: a page that invokes two to four sibling forms one after the other (new ones,
+// or one invoked again under a different CTM), each with children of its own, with text
+// on the page in between.  Written per scope (scope.go), siblings bind the same local
+// names to different children and forms re-bind names of the page.
+func genScopes(r *hx.Rng) []op {
+	g := &genState{r: r, budget: 1 << 20, balance: true}
+	var p []op
+	if r.Chance(1, 2) {
+		m := genMatrix(r)
+		p = append(p, op{K: "cm", N: m[:]})
+	}
+	var outer []*form
+	n := r.Range(2, 4)
+	for i := 0; i < n; i++ {
+		var f *form
+		if len(outer) > 0 && r.Chance(1, 5) {
+			f = outer[r.Intn(len(outer))]
+		} else {
+			f = g.scopeForm(1)
+			outer = append(outer, f)
+		}
+		p = append(p, g.invoke(f)...)
+		if r.Chance(1, 4) {
+			p = append(p, g.textBlock()...)
+		}
+		if r.Chance(1, 6) {
+			m := genMatrix(r)
+			p = append(p, op{K: "cm", N: m[:]})
+		}
+	}
+	return p
 }
 
 func genGfx(r *hx.Rng) []op {
